@@ -20,8 +20,8 @@ import (
 
 // Finding is one disagreement between the model and the observed system.
 type Finding struct {
-	Sig  string
-	What string
+	Sig  string `json:"sig"`
+	What string `json:"what"`
 }
 
 // fields of ast.Task that the merge itself populates; they have no documented
@@ -362,4 +362,47 @@ func refKindOfFirstDiff(def, got reflect.Value, rw func(string) string) string {
 		return "local-ref"
 	}
 	return "element"
+}
+
+// TableResult is what the table worker (a child process) reports for one tree.
+type TableResult struct {
+	ModelErr     string           `json:"model_err"`
+	SetupErr     string           `json:"setup_err"`
+	SetupErrType string           `json:"setup_err_type"`
+	Panic        string           `json:"panic"`
+	Stack        string           `json:"stack"`
+	Findings     []Finding        `json:"findings"`
+	Compared     int64            `json:"compared"`
+	Tasks        int              `json:"tasks"`
+	FieldCmp     map[string]int64 `json:"field_cmp"`
+	FieldNonZero map[string]int64 `json:"field_nonzero"`
+	Opaque       []string         `json:"opaque"`
+}
+
+// TableChild runs in the worker process: model, Setup, table comparison.
+func TableChild(t *Tree, dir string) *TableResult {
+	r := &TableResult{}
+	m := NewModel(t, dir)
+	r.ModelErr = m.Err
+	e, err := Setup(dir)
+	if err != nil {
+		r.SetupErr = err.Error()
+		r.SetupErrType = fmt.Sprintf("%T", err)
+		if pe, ok := err.(*PanicError); ok {
+			r.Panic, r.Stack = pe.Value, pe.Stack
+		}
+		return r
+	}
+	if m.Err != "" {
+		return r
+	}
+	r.Findings, r.Compared = CheckTable(m, e)
+	r.Tasks = len(m.Insts)
+	fieldMu.Lock()
+	defer fieldMu.Unlock()
+	r.FieldCmp, r.FieldNonZero = fieldCmp, fieldNonZero
+	for k := range opaqueTypes {
+		r.Opaque = append(r.Opaque, k)
+	}
+	return r
 }
